@@ -338,7 +338,14 @@ def gen_expr(rng, depth=0):
         return quote(rng.choice(['', 'a', 'k', '_k', '_x', 'pub', 'abc', 'format']))
     a = gen_expr(rng, depth + 1)
     if r < 0.5:
-        return f'{wrap(rng, a)}.{rng.choice(MEMBERS)}'
+        m = rng.choice(MEMBERS)
+        k = rng.random()
+        if k < 0.12:                      # the member operand wrapped in redundant grouping parentheses / spaced out
+            m = f'({m})' if k < 0.08 else f'(({m}))'
+            return f'{wrap(rng, a)}.{m}'
+        if k < 0.18:
+            return f'{wrap(rng, a)} . {m}'
+        return f'{wrap(rng, a)}.{m}'
     if r < 0.6:
         return f'{wrap(rng, a)}[{gen_expr(rng, depth + 1)}]'
     if r < 0.78:
